@@ -114,6 +114,10 @@ def _json_layouts(maxlen):
         for seq in itertools.product('MI', repeat=n):
             if 1 <= seq.count('M') <= 3:
                 out.append(''.join(seq))
+    # 'P' = a later multiarrange task listing the SAME stimuli in another order: the loader may skip
+    # it (it warns about varying stimuli) or load it, but if it loads it the values must sit on the
+    # right stimulus pairs
+    out += ['MP', 'MPM', 'MIP', 'MMP'][:2 + (maxlen >= 3) * 2]
     return out
 
 
@@ -443,6 +447,7 @@ def _meadows_case(case, ctx, root):
     klass = 'shape=%s,sort=%s' % (shape, sort)
     sigp = 'meadows.load_rdms|' + klass
     expected = []          # list of (row key descriptor, key value, utv in file order, extra descriptors)
+    optional = []          # tasks the loader may skip: (key, value, utv in the task's own order, its labels)
     if shape == '1pMt':
         base_labels = JSON_NAMES[:n]
         file_labels = [base_labels[i] for i in order]
@@ -450,12 +455,16 @@ def _meadows_case(case, ctx, root):
         tasks, r = [], 0
         positions = []
         for k, kind in enumerate(case['layout']):
-            if kind == 'M':
+            if kind in 'MP':
                 name = 'ma%d' % (r + 1)
-                u = _utv(file_labels, base_labels, r, ctx.seed)
-                tasks.append({'name': name, 'task_type': 'multiarrange', 'stimuli': file_labels, 'rdm': u})
-                expected.append(('task', name, u, {'participant': case['participant']}))
-                positions.append(k)
+                t_labels = list(file_labels) if kind == 'M' else list(file_labels)[::-1]
+                u = _utv(t_labels, base_labels, r, ctx.seed)
+                tasks.append({'name': name, 'task_type': 'multiarrange', 'stimuli': t_labels, 'rdm': u})
+                if kind == 'M':
+                    expected.append(('task', name, u, {'participant': case['participant']}))
+                    positions.append(k)
+                else:
+                    optional.append(('task', name, u, t_labels))
                 r += 1
             else:
                 tasks.append({'name': 'gi%d' % k, 'task_type': 'info'})
@@ -488,7 +497,7 @@ def _meadows_case(case, ctx, root):
     try:
         with ctx.guard(sigp, case):
             rdms = meadows.load_rdms(fpath, sort=sort)
-            if rdms.n_rdm != len(expected):
+            if not (len(expected) <= rdms.n_rdm <= len(expected) + len(optional)):
                 ctx.fail(sigp + '|n_rdms', case, '%d RDMs for %d records' % (rdms.n_rdm, len(expected)))
                 return
             conds = [str(c) for c in rdms.pattern_descriptors.get('conds', [])]
@@ -526,7 +535,17 @@ def _meadows_case(case, ctx, root):
                     if got is None or len(got) != rdms.n_rdm or str(got[row]) != str(dv):
                         ctx.fail('%s|%s-descriptor' % (sigp, dk), case,
                                  '%s descriptor %r, expected %r for %s=%s' % (dk, got, dv, key, value))
-            if shape == '1pMt':
+            for key, value, u, t_labels in optional:
+                col = [str(v) for v in rdms.rdm_descriptors.get(key, [])]
+                for row in [i for i, v in enumerate(col) if v == value]:
+                    want_pairs = ref.pair_values(t_labels, u)
+                    got_pairs = ref.pair_values(conds, dis[row])
+                    bad = [sorted(k) for k in want_pairs if abs(want_pairs[k] - got_pairs[k]) > 1e-12]
+                    if bad:
+                        ctx.fail(sigp + ',task-with-other-stimulus-order|value-label-association', case,
+                                 '%s=%s lists its stimuli as %r; loaded under labels %r the pairs %r carry another '
+                                 'value than in the file' % (key, value, t_labels, conds, bad[:3]))
+            if shape == '1pMt' and not optional:
                 got = rdms.rdm_descriptors.get('task_index')
                 if got is not None:
                     by_task = {str(t): int(i) for t, i in zip(rdms.rdm_descriptors.get('task', []), got)}
